@@ -15,7 +15,8 @@
     unsigned chunk    HEX CRLF DATA CRLF
     unsigned final    HEX0 CRLF NAME ":" BASE64(csum payload) CRLF CRLF
 
-  HEX = one or more hex digits of either case (leading zeros allowed, RFC 9112 chunk-size).
+  HEX = one to sixteen hex digits of either case (leading zeros allowed; sixteen digits spell every
+  size that fits the int64 the wire format is read into).
   SIG_i = hex(hmac(key, "AWS4-HMAC-SHA256-PAYLOAD\n" date "\n" scope "\n" SIG_{i-1} "\n" hex(sha "") "\n" hex(sha DATA_i)))
   with SIG_0 the seed signature; the final chunk signs the empty data; TSIG signs the trailer line.
   SHA-256 / HMAC / checksum are parameters: validity is DEFINED with the same functions the reader
@@ -25,7 +26,9 @@
   format is read into).
 
   Grey zones (the property statement does not decide; the oracle admits rejection as well as the
-  payload of the lenient reading, never anything else): a `+`/`-0` sign on a chunk size; in the
+  payload of the lenient reading, never anything else): a `+`/`-0` sign on a chunk size or more than
+  sixteen digits (leading zeros; the signed reader buffers at most 1024 bytes of a header that is
+  split across reads, so absurdly long spellings are accepted or refused depending on the split); in the
   unsigned encoding white space around a chunk size or around the trailer line and a bare LF after
   the size; any bytes after the terminating CRLF (the HTTP layer, not the decoder, delimits the body).
 -/
@@ -77,12 +80,16 @@ instance (h : Bytes) (n : Nat) : Decidable (IsHex h n) := by unfold IsHex; infer
 
 def chunkBound : Nat := 9223372036854775807
 
+/-- a chunk size is spelled with at most sixteen hex digits -/
+def maxSizeDigits : Nat := 16
+
 def payloadOf (cs : List Chunk) : Bytes := (cs.map (·.2)).flatten
 
 /-- well-formed chunk list: sizes spelled right, no empty data chunk, final chunk spelled as zero,
 payload shorter than 2^63 bytes -/
 def WF (cs : List Chunk) (hz : Bytes) : Prop :=
-  (∀ c ∈ cs, IsHex c.1 c.2.length ∧ c.2 ≠ []) ∧ IsHex hz 0 ∧ (payloadOf cs).length ≤ chunkBound
+  (∀ c ∈ cs, IsHex c.1 c.2.length ∧ c.2 ≠ []) ∧ IsHex hz 0 ∧ (payloadOf cs).length ≤ chunkBound ∧
+  (∀ c ∈ cs, c.1.length ≤ maxSizeDigits) ∧ hz.length ≤ maxSizeDigits
 
 /-- signed encodings; `prev` = previous signature, `acc` = payload before these chunks -/
 def renderSigned (P : Params) (tr : Bool) : Bytes → Bytes → List Chunk → Bytes → Bytes
@@ -162,6 +169,7 @@ def sizeToken (lenient ws : Bool) (stop : UInt8) (s : Bytes) : Except Verdict (N
     | [] => .error .truncated
     | b :: rest =>
       if b ≠ stop then .error .malformed else
+      if h.length > maxSizeDigits then .error .malformed else
       match parseHexDigits h with
       | some n => .ok (n, rest)
       | none => .error .malformed
